@@ -214,6 +214,18 @@ def check_obligation(ob, timeout_ms=10000):
         return 'refuted', 'cvc5', dt + dt2, cand
     if cand is not None:
         return 'candidate', 'z3+instantiation', dt + dt2, cand
+    if quant:
+        # last resort for a counter-model: the quantifier-free part of the hypotheses only (weaker hypotheses: a
+        # model is only a candidate, to be confirmed by replay)
+        from .explore import weaken
+        s3 = z3.Solver()
+        s3.set('timeout', min(timeout_ms, 5000))
+        for h in ob.hyps:
+            w = weaken(h, True) if has_quantifier(h) else h
+            s3.add(w)
+        s3.add(weaken(z3.Not(ob.goal), True) if has_quantifier(ob.goal) else z3.Not(ob.goal))
+        if s3.check() == z3.sat:
+            return 'candidate', 'z3 on the quantifier-free part', dt + dt2, s3.model()
     if literal_clash:
         return 'candidate', 'goal contradicts a hypothesis of a path the solvers could not show infeasible', dt + dt2, None
     return 'unknown', 'z3+cvc5:' + s.reason_unknown(), dt + dt2, None
